@@ -306,8 +306,12 @@ def classify(exc, frames, runs):
         flags["heat_unsupplied"] = True
     elif "use_given_hydraulic_results" in frames or (frames and frames[-1] == "pipeflow"):
         pass                                            # hyd_flag test / bad mode: decided by the model
+    elif in_stage:
+        # the exception escapes from inside a stage (solve function, reduce_pit ...): model transition ri_escape
+        flags["escape"] = ({"hydraulics": "hydraulics", "heat_transfer": "heat", "bidirectional": "bidirectional"}[in_stage[-1]],
+                           "EscNotConverged" if nc else "EscOther")
     else:
-        return flags, False                             # exception inside a solve function etc.: outside the model
+        return flags, False
     return flags, True
 
 
@@ -401,7 +405,7 @@ def run_scenarios(ctx, n_scen):
                                   "pipeflow raised %s (%s) and afterwards net.converged=%s and result tables %s"
                                   % (cls, where, conv, "are all NaN" if allnan else "hold numbers"), replay)
             # ---- model call ----
-            tabs = "AllNaN" if allnan else ("Written" if cls == "ok" else "Partial")
+            tabs = "AllNaN" if allnan else "Written"
             if flags["options_raise"]:
                 tabs = prev_tabs          # nothing was touched: the tables of the previous call
             prev_tabs = tabs
@@ -422,13 +426,20 @@ def run_scenarios(ctx, n_scen):
             for r in runs:
                 by.setdefault(r["stage"], []).append(r)
 
-            def ri(lst):
+            esc = flags.get("escape")
+            if esc:
+                ctx.count("pipeflow:exception escaping from inside stage %s" % esc[0])
+                if not by[esc[0]] or by[esc[0]][-1].get("conv"):
+                    by[esc[0]].append(dict(D.DUMMY_RUN))       # raised before the loop started
+
+            def ri(lst, stage):
                 lst = lst or [D.DUMMY_RUN]
-                lits = [D.run_in_coq(r) for r in lst]
+                lits = [D.run_in_coq(r, esc[1] if (esc and esc[0] == stage and i == len(lst) - 1) else "NoEscape")
+                        for i, r in enumerate(lst)]
                 lits = [l.replace("ri_rerun := false", "ri_rerun := true") if i < len(lits) - 1 else l
                         for i, l in enumerate(lits)]
                 return lits
-            hy, ht, bi = ri(by["hydraulics"]), ri(by["heat"]), ri(by["bidirectional"])
+            hy, ht, bi = ri(by["hydraulics"], "hydraulics"), ri(by["heat"], "heat"), ri(by["bidirectional"], "bidirectional")
             alpha0 = runs[0]["alpha0"] if runs else 1.0
             env = ("{| pe_options_raise := %s; pe_setup_raise := %s; pe_unsupplied := %s; pe_conn_raise := %s; "
                    "pe_heat_unsupplied := %s; pe_extract_raise := %s; pe_reuse := false; pe_alpha0 := %s; "
@@ -436,7 +447,7 @@ def run_scenarios(ctx, n_scen):
                    % (cbool(flags["options_raise"]), cbool(flags["setup_raise"]), cbool(flags["unsupplied"]),
                       cbool(flags["conn_raise"]), cbool(flags["heat_unsupplied"]), cbool(flags["extract_raise"]),
                       cq(D.alpha_q(alpha0)), hy[0], clist(hy[1:]), ht[0], clist(ht[1:]), bi[-1]))
-            out = "Returned" if cls == "ok" else "NotConverged" if cls == "PipeflowNotConverged" else "OtherError"
+            out = "Returned" if cls == "ok" else "NotConverged" if cls == "PipeflowNotConverged" else "OtherException"
             calls.append("{| pc_mode := %s; pc_env := %s; pc_obs_outcome := %s; pc_obs_conv := %s; pc_obs_tables := %s |}"
                          % (MODES.get(mode, "MBad"), env, out, cbool(conv), tabs))
         if calls:
